@@ -112,6 +112,9 @@ type VC struct {
 	pendingWf [][2]string
 	recDefs  map[string]*recDef
 	mu       sync.Mutex
+	storeHeap *Heap
+	tagBlock *ssa.BasicBlock // while a latch block is executed once per predecessor: that predecessor
+	dupSfx   string
 	lineBlock []int
 	anc      map[*ssa.BasicBlock]map[int]bool
 }
@@ -131,7 +134,9 @@ func newVC(p *Program, fn *ssa.Function) *VC {
 func (vc *VC) emit(s string) {
 	vc.lines = append(vc.lines, s)
 	bi := -1
-	if vc.curBlock != nil {
+	if vc.tagBlock != nil {
+		bi = vc.tagBlock.Index
+	} else if vc.curBlock != nil {
 		bi = vc.curBlock.Index
 	}
 	vc.lineBlock = append(vc.lineBlock, bi)
@@ -534,6 +539,9 @@ func (vc *VC) oblige(kind, label string, tags []string, reach, goal, src string)
 		pos = vc.prog.prog.Fset.Position(vc.curPos)
 	}
 	o := &Obligation{Name: name, Kind: kind, Tags: tags, Prefix: len(vc.lines), Goal: implies(reach, goal), Src: src, Pos: pos, Fn: vc.key, Block: vc.curBlock}
+	if vc.tagBlock != nil {
+		o.Block = vc.tagBlock
+	}
 	vc.obls = append(vc.obls, o)
 	return o
 }
@@ -734,12 +742,34 @@ func (vc *VC) objInv(v string, t types.Type, depth int) string {
 	return "true"
 }
 
+// sliceObjInv: every element of a []object.Object value is a good object (in heap h)
+func (vc *VC) sliceObjInv(h *Heap, v string, t types.Type) string {
+	sl, ok := t.Underlying().(*types.Slice)
+	if !ok || !isObjectType(sl.Elem()) {
+		return "true"
+	}
+	comp, es := vc.elemComp(sl.Elem())
+	e := app(vc.u.elt(es), app("select", vc.get(h, comp), app("s.arr", v)), app("s.off", v), "j!o")
+	return fmt.Sprintf("(forall ((j!o Int)) %s)", implies(and(app("<=", "0", "j!o"), app("<", "j!o", app("s.len", v))), vc.goodObj(e, sl.Elem())))
+}
+
 func (vc *VC) storeInv(reach string, v Term, t types.Type, what string) {
 	f := vc.objInv(v.S, t, 0)
+	if vc.storeHeap != nil {
+		f = and(f, vc.sliceObjInv(vc.storeHeap, v.S, t))
+	}
 	if f == "true" {
 		return
 	}
 	k := vc.counter("objinv.store")
 	vc.oblige("objinv", fmt.Sprintf("objinv.store.%d", k), vc.safetyTags(), reach, f, "object.Object stored into "+what+" is a non-nil module object")
 	vc.assumptions["A-OBJ: object.Object values loaded from in-bounds slots, present map keys and struct fields are non-nil module objects (every store in a verified function is checked: objinv.store)"] = true
+}
+
+// ghost log of calls through function values: Gcalls_n counts them, Gcalls_fn[k] is the function
+// value and Gcalls_args[k] the (first) slice argument of the k-th call.
+func (vc *VC) callLogDecl() {
+	vc.compDecl("Gcalls_n", SInt)
+	vc.compDecl("Gcalls_fn", "(Array Int Int)")
+	vc.compDecl("Gcalls_args", "(Array Int Slice)")
 }
